@@ -61,11 +61,23 @@ func CreateTypesTable(i interface{}) TypesTable {
 }
 
 func FieldsFromStruct(t reflect.Type) TypesTable {
+	return fieldsFromStruct(t, make(map[reflect.Type]bool))
+}
+
+// fieldsFromStruct collects the fields of t. The embedding set holds the struct
+// types on the current embedding path: a struct may embed a pointer to itself
+// (directly or through other structs), which promotes nothing new.
+func fieldsFromStruct(t reflect.Type, embedding map[reflect.Type]bool) TypesTable {
 	types := make(TypesTable)
 	t = dereference(t)
 	if t == nil {
 		return types
 	}
+	if embedding[t] {
+		return types
+	}
+	embedding[t] = true
+	defer delete(embedding, t)
 
 	switch t.Kind() {
 	case reflect.Struct:
@@ -73,7 +85,7 @@ func FieldsFromStruct(t reflect.Type) TypesTable {
 			f := t.Field(i)
 
 			if f.Anonymous {
-				for name, typ := range FieldsFromStruct(f.Type) {
+				for name, typ := range fieldsFromStruct(f.Type, embedding) {
 					if _, ok := types[name]; ok {
 						types[name] = Tag{Ambiguous: true}
 					} else {
